@@ -215,3 +215,9 @@ func (v *VerifC15Party) Drain() (done bool, errText string) {
 
 // FutureMessageCount is the number of messages stored for a later round.
 func (v *VerifC15Party) FutureMessageCount() int { return len(v.p.GetFutureMessage()) }
+
+// VerifC15InitialPartyKey is Processor.generatePartyKey(bh): the key under which OnMessageCast registers
+// the party of a proposal until round0 has computed the final block hash (it reads no Processor field).
+func VerifC15InitialPartyKey(bh types.BlockHeader) []byte {
+	return (&Processor{}).generatePartyKey(bh)
+}
